@@ -17,6 +17,7 @@ HERE = os.path.dirname(os.path.abspath(__file__))
 sys.path.insert(0, HERE)
 
 CHECKS = {
+    'C01': ('checks.c01', 'C01'),
     'C07': ('checks.store_check', 'C07'),
     'C08': ('checks.store_check', 'C08'),
     'C10': ('checks.replist_check', 'C10'),
